@@ -196,30 +196,35 @@ def gen_edge_jobs(ctx, n):
             a, b = b, a
         if rng.random() < 0.1:
             a = rng.choice(rng.choice(cell))      # usually not an edge
-        jobs.append({'id': i, 'op': 'edge', 'poly': cell, 'a': a, 'b': b})
+        jobs.append({'id': i, 'op': 'edge', 'poly': cell, 'a': a, 'b': b, 'seed': rng.randrange(2 ** 30),
+                     'steps': rng.randint(1, 8)})
     return jobs
 
 
 def eval_edge(ctx, jobs, res):
     lines = [HEADER]
     cases = []
-    n_ok = 0
+    n_ok = n_steps = 0
     for job, r in zip(jobs, res):
-        ctx.case(['edge', job['poly'], job['a'], job['b']], nontrivial=bool(r.get('ok')))
+        ctx.case(['edge', job['poly'], job['a'], job['b'], job['seed'], job['steps']],
+                 nontrivial=any(st['ok'] and st['before'] != st['after'] for st in r.get('steps', [])))
         if 'error' in r:
             ctx.violation('impl-violation', {'jobs': {'edge': [job]}}, 'remove_one_edge returns', r['error'],
                           'verified-oracle test of remove_one_edge_from_polyhedron',
                           signature={'check': 'edge', 'symptom': 'raises'})
             continue
-        n_ok += bool(r['ok'])
-        a, b = cz(job['a']), cz(job['b'])
-        # input closed (else the case is void -> reported as harness error), and if the
-        # implementation accepted: output closed, same edges except (a,b),(b,a)
-        cases.append((job['id'],
-                      f'let p := {cpoly(job["poly"])} in let p\' := {cpoly(r["poly"])} in '
-                      f'closed_b p && (negb {"true" if r["ok"] else "false"} || '
-                      f'(closed_b p\' && forallb (fun e => emem e (pedges p)) (pedges p\') && '
-                      f'forallb (fun e => emem e (pedges p\') || emem e [({a}, {b}); ({b}, {a})]) (pedges p)))'))
+        for st in r['steps']:
+            n_ok += bool(st['ok'])
+            n_steps += 1
+            a, b = cz(st['a']), cz(st['b'])
+            # input closed, and if the implementation accepted: output closed, same
+            # directed edges except (a,b),(b,a); if it refused: cell unchanged
+            cases.append((job['id'],
+                          f'let p := {cpoly(st["before"])} in let p\' := {cpoly(st["after"])} in '
+                          f'closed_b p && (if {"true" if st["ok"] else "false"} then '
+                          f'(closed_b p\' && forallb (fun e => emem e (pedges p)) (pedges p\') && '
+                          f'forallb (fun e => emem e (pedges p\') || emem e [({a}, {b}); ({b}, {a})]) (pedges p)) '
+                          f'else polys_eqb [p] [p\'])'))
     lines.append('Goal True. idtac "@@ edge". Abort.')
     lines.append('Eval vm_compute in map fst (filter (fun c => negb (snd c)) ' +
                  lib.coq_list([f'({cz(i)}, {e})' for i, e in cases]) + ').')
@@ -230,7 +235,8 @@ def eval_edge(ctx, jobs, res):
                       'verified-oracle test of remove_one_edge_from_polyhedron', found_input=False,
                       signature={'check': 'edge', 'symptom': 'coq-eval-failed'})
         return
-    ctx.notes['remove_one_edge_oracle'] = {'cases': len(cases), 'accepted_by_impl': n_ok, 'failed': len(bad)}
+    ctx.notes['remove_one_edge_oracle'] = {'cells': len(jobs), 'steps': n_steps, 'accepted_by_impl': n_ok,
+                                           'failed_cells': len(set(bad))}
     for job, r in zip(jobs, res):
         if job['id'] in bad:
             ctx.violation('impl-violation', {'jobs': {'edge': [job]}},
@@ -831,6 +837,8 @@ def main(ctx):
     proof_ok, log = ctx.build_props('C20/Props.v', extra_targets=['C20/Harness.vo'])
     if not proof_ok:
         ctx.notes['build_log_tail'] = log[-1500:]
+    elif ctx.tier == 'thorough' and hasattr(ctx, 'coqchk'):
+        ctx.coqchk('C20/Props.v')
     thorough = ctx.tier == 'thorough'
     jobs = {'merge': gen_merge_jobs(ctx, 400 if thorough else 120),
             'reindex': gen_reindex_jobs(ctx, 300 if thorough else 80),
